@@ -2,6 +2,7 @@ package compiler
 
 import (
 	"fmt"
+	"sort"
 
 	"github.com/smarthome-go/homescript/v3/homescript/errors"
 )
@@ -66,8 +67,12 @@ func (self *Compiler) relocateLabels() {
 func (self *Compiler) renameVariables() {
 	slot := make(map[string]int64, 0)
 
-	for _, module := range self.modules {
-		for name, fn := range module {
+	// Visit modules and functions in the order of their names: the slot table is shared, so map
+	// iteration order would decide which slot a name gets that occurs in several functions.
+	for _, moduleName := range sortedKeys(self.modules) {
+		module := self.modules[moduleName]
+		for _, name := range sortedKeys(module) {
+			fn := module[name]
 			cnt := 0
 			for idx, inst := range fn.Instructions {
 				switch inst.Opcode() {
@@ -91,4 +96,13 @@ func (self *Compiler) renameVariables() {
 			}
 		}
 	}
+}
+
+func sortedKeys[V any](m map[string]V) []string {
+	keys := make([]string, 0, len(m))
+	for key := range m {
+		keys = append(keys, key)
+	}
+	sort.Strings(keys)
+	return keys
 }
